@@ -3,6 +3,7 @@ import io
 import os
 import shutil
 import tempfile
+import uuid
 from pathlib import Path
 from typing import AbstractSet, Any, Literal, Sequence, Union, cast
 from zipfile import ZipFile
@@ -256,15 +257,18 @@ class AutoSerialize:
             print(f"Warning: appending .zip to path '{path}'")
             path += ".zip"
 
-        # Handle overwrite vs. write protection
-        if os.path.exists(path):
-            if mode == "o":
-                if os.path.isdir(path):
-                    shutil.rmtree(path)
-                else:
-                    os.remove(path)
-            else:
-                raise FileExistsError(f"File '{path}' already exists. Use mode='o' to overwrite.")
+        # Handle overwrite vs. write protection.  An existing target is only removed once
+        # the new data has been written completely (see _install below).
+        if os.path.exists(path) and mode != "o":
+            raise FileExistsError(f"File '{path}' already exists. Use mode='o' to overwrite.")
+
+        # Directory mode requires no extension
+        if store == "dir" and os.path.splitext(path)[1]:
+            raise ValueError(
+                f"Expected a directory path for store='dir', but got file-like path '{path}'"
+            )
+        if store not in ("zip", "dir"):
+            raise ValueError(f"Unknown store type: {store}")
 
         # Normalize skip argument (split to names and types)
         if isinstance(skip, (str, type)):
@@ -279,34 +283,48 @@ class AutoSerialize:
                 f"{t.__module__}.{t.__qualname__}" for t in skip_types
             ]
 
+        # Everything is written to a staging path next to the target and moved into place
+        # only after it is complete, so a failed save never leaves a partial, loadable target.
+        staged = f"{path}.tmp-{uuid.uuid4().hex}"
+
+        def _install():
+            if os.path.isdir(path) and not os.path.islink(path):
+                shutil.rmtree(path)
+            elif os.path.lexists(path):
+                os.remove(path)
+            os.replace(staged, path)
+
+        def _discard():
+            if os.path.isdir(staged):
+                shutil.rmtree(staged, ignore_errors=True)
+            elif os.path.lexists(staged):
+                os.remove(staged)
+
         # Main branch: choose between zip and directory storage
-        if store == "zip":
-            # Always use tempdir for safe atomic write
-            with tempfile.TemporaryDirectory() as tmpdir:
-                store_obj = LocalStore(tmpdir)
+        try:
+            if store == "zip":
+                with tempfile.TemporaryDirectory() as tmpdir:
+                    store_obj = LocalStore(tmpdir)
+                    root = zarr.group(store=store_obj, overwrite=True)
+                    self._recursive_save(self, root, skip_names, skip_types, compressors)
+                    write_skip_metadata(root)
+                    # Zip up all files in tempdir
+                    with ZipFile(staged, mode="w") as zf:
+                        for dirpath, _, filenames in os.walk(tmpdir):
+                            for filename in filenames:
+                                full_path = os.path.join(dirpath, filename)
+                                rel_path = os.path.relpath(full_path, tmpdir)
+                                zf.write(full_path, arcname=rel_path)
+            else:
+                os.makedirs(staged)
+                store_obj = LocalStore(staged)
                 root = zarr.group(store=store_obj, overwrite=True)
                 self._recursive_save(self, root, skip_names, skip_types, compressors)
                 write_skip_metadata(root)
-                # Zip up all files in tempdir
-                with ZipFile(path, mode="w") as zf:
-                    for dirpath, _, filenames in os.walk(tmpdir):
-                        for filename in filenames:
-                            full_path = os.path.join(dirpath, filename)
-                            rel_path = os.path.relpath(full_path, tmpdir)
-                            zf.write(full_path, arcname=rel_path)
-        elif store == "dir":
-            # Directory mode requires no extension
-            if os.path.splitext(path)[1]:
-                raise ValueError(
-                    f"Expected a directory path for store='dir', but got file-like path '{path}'"
-                )
-            os.makedirs(path, exist_ok=True)
-            store_obj = LocalStore(path)
-            root = zarr.group(store=store_obj, overwrite=True)
-            self._recursive_save(self, root, skip_names, skip_types, compressors)
-            write_skip_metadata(root)
-        else:
-            raise ValueError(f"Unknown store type: {store}")
+            _install()
+        except BaseException:
+            _discard()
+            raise
 
     def _serialize_value(
         self,
